@@ -251,6 +251,12 @@ def catalog(tier, families=("prim", "dep", "bool", "product", "transform", "nest
                 out.append(("(%s%s%s)" % (a, opn, b),
                             (lambda env, a=a, b=b, op=op: op(PRIMS[a](env, tag="A"), PRIMS[b](env, tag="B"))),
                             dict(kind=opn, fam="bool")))
+        # a parameter-dependent operand: rows of a parameter batch see different combinations
+        for a, b, da, db, opn, op in (("Interval", "Interval", "t", None, "-", cut), ("Interval", "Interval", None, "t", "+", union)) + (
+                (("Interval", "Interval", "t", None, "&", inter), ("Circle", "Parallelogram", "t", None, "-", cut)) if tier == "thorough" else ()):
+            out.append(("(%s%s%s%s%s)" % (a, "[t]" if da else "", opn, b, "[t]" if db else ""),
+                        (lambda env, a=a, b=b, op=op, da=da, db=db: op(PRIMS[a](env, tag="A", dep=da), PRIMS[b](env, tag="B", dep=db))),
+                        dict(kind=opn, fam="bool", dep=True)))
     if "product" in families:
         out.append(("(Circle*Interval)", lambda env: product(circle(env, tag="A"), interval(env, tag="B", var="t")),
                     dict(fam="product")))
